@@ -167,4 +167,48 @@ theorem width_le_encode_length (rs : List Int) (hv : ∀ r ∈ rs, validRune r =
     · rw [h3.2.2.2]; split <;> simp <;> omega
     · rw [h4.2.2]; split <;> simp <;> omega
 
+/-! ### UcFirst / LcFirst -/
+
+theorem ucFirst_encode (r : Int) (rs : List Int) (hr : validRune r = true) :
+    ucFirst (encode (r :: rs)) = some (encode ((if 97 ≤ r ∧ r ≤ 122 then r - 32 else r) :: rs)) := by
+  obtain ⟨b, t, hbt, h1, h2⟩ := encodeRune_head r hr
+  unfold ucFirst
+  rw [encode_cons, hbt]
+  simp only [List.cons_append, List.length_cons, Nat.add_one_ne_zero, if_false, List.getElem?_cons_zero]
+  by_cases hb : 97 ≤ b ∧ b ≤ 122
+  · obtain ⟨ht, hrb⟩ := h1 (by omega)
+    subst ht; subst hrb
+    rw [if_pos hb, if_pos (by omega)]
+    have : ((b : Int) - 32) = ((b - 32 : Nat) : Int) := by omega
+    rw [encode_cons, this, encodeRune_1 _ (by omega)]
+    simp [sliceFrom]
+  · rw [if_neg hb]
+    have : ¬ (97 ≤ r ∧ r ≤ 122) := by
+      by_cases hb80 : b < 0x80
+      · have := (h1 hb80).2; omega
+      · have := h2 hb80; omega
+    rw [if_neg this, encode_cons, hbt]
+    simp
+
+theorem lcFirst_encode (r : Int) (rs : List Int) (hr : validRune r = true) :
+    lcFirst (encode (r :: rs)) = some (encode ((if 65 ≤ r ∧ r ≤ 90 then r + 32 else r) :: rs)) := by
+  obtain ⟨b, t, hbt, h1, h2⟩ := encodeRune_head r hr
+  unfold lcFirst
+  rw [encode_cons, hbt]
+  simp only [List.cons_append, List.length_cons, Nat.add_one_ne_zero, if_false, List.getElem?_cons_zero]
+  by_cases hb : 65 ≤ b ∧ b ≤ 90
+  · obtain ⟨ht, hrb⟩ := h1 (by omega)
+    subst ht; subst hrb
+    rw [if_pos hb, if_pos (by omega)]
+    have : ((b : Int) + 32) = ((b + 32 : Nat) : Int) := by omega
+    rw [encode_cons, this, encodeRune_1 _ (by omega)]
+    simp [sliceFrom]
+  · rw [if_neg hb]
+    have : ¬ (65 ≤ r ∧ r ≤ 90) := by
+      by_cases hb80 : b < 0x80
+      · have := (h1 hb80).2; omega
+      · have := h2 hb80; omega
+    rw [if_neg this, encode_cons, hbt]
+    simp
+
 end Golib.C17
